@@ -43,15 +43,10 @@
 (*   NonPageAborts          a first entry that is no page of the tree      *)
 (*                          raises KeyError / AttributeError               *)
 (***************************************************************************)
-EXTENDS Integers, Sequences, FiniteSets, TLC, Json
+EXTENDS DumpPdfOps, Json
 
 CONSTANTS P, Dev
 
-None == [k |-> "none"]
-NoDv == [k |-> "noD"]
-Absent == [k |-> "absent"]
-NONPAGE == -1
-INTEGER == -2
 Arrs == {[k |-> "arr", pg |-> p] : p \in (1..P) \cup {NONPAGE, INTEGER}}
 RefTo(S) == {[k |-> "ref", v |-> v] : v \in S}
 DictOf(S) == {[k |-> "dict", d |-> v] : v \in S}
@@ -75,92 +70,34 @@ Mentions(v) == IF v.k \in {"str", "lit"} THEN TRUE
                ELSE IF v.k = "act" THEN Mentions(v.d)
                ELSE FALSE
 
-VARIABLES idest, ia, nv,               \* input: the item's /Dest, its /A, what names stand for
-          dest, pageno, err, pc, fired
-vars == <<idest, ia, nv, dest, pageno, err, pc, fired>>
+VARIABLES idest, ia, nv,       \* input: the item's /Dest, its /A, what names stand for
+          st                   \* [dest, pageno, err, pc, fired]
+vars == <<idest, ia, nv, st>>
 
 Init == /\ \/ (idest \in DestForms /\ ia \in {None} \cup {[k |-> "act", s |-> "GoTo", d |-> [k |-> "arr", pg |-> 1]]})
            \/ (idest = None /\ ia \in {None} \cup ActForms)
         /\ nv \in (IF Mentions(idest) \/ Mentions(ia) THEN NamedValues ELSE {Absent})
-        /\ dest = idest /\ pageno = 0 /\ err = "none" /\ pc = "test" /\ fired = {}
+        /\ st = Start(idest)
 
 In == UNCHANGED <<idest, ia, nv>>
-Fail(e, d) == err' = e /\ fired' = fired \cup {d} /\ pc' = "done" /\ UNCHANGED <<dest, pageno>> /\ In
-
-\* resolve1: references are followed to the object
-RECURSIVE Resolve1(_)
-Resolve1(v) == IF v.k = "ref" THEN Resolve1(v.v) ELSE v
-
-\* `if dest:` ... `elif a:`
-DTest == /\ pc = "test"
-         /\ pc' = IF dest # None THEN "name" ELSE "action"
-         /\ UNCHANGED <<dest, pageno, err, fired>> /\ In
-
-\* resolve_dest, first test: a string or a name object is looked up with get_dest
-RName == /\ pc = "name" /\ dest.k \in {"str", "lit"}
-         /\ IF nv = Absent
-              THEN IF "MissingDestAborts" \in Dev THEN Fail("PDFDestinationNotFound", "MissingDestAborts")
-                   ELSE dest' = None /\ pc' = "done" /\ UNCHANGED <<pageno, err, fired>> /\ In
-              ELSE dest' = Resolve1(nv) /\ pc' = "dict" /\ UNCHANGED <<pageno, err, fired>> /\ In
-RNameSkip == /\ pc = "name" /\ dest.k \notin {"str", "lit"}
-             /\ IF "RefNotReinterpreted" \notin Dev /\ dest.k = "ref"
-                  THEN dest' = Resolve1(dest) /\ pc' = "name"        \* intended: references are transparent from the start
-                  ELSE dest' = dest /\ pc' = "dict"
-             /\ UNCHANGED <<pageno, err, fired>> /\ In
-\* second test: a dictionary stands for its /D
-RDict == /\ pc = "dict"
-         /\ IF dest.k = "dict"
-              THEN IF dest.d = NoDv
-                     THEN IF "NonPageAborts" \in Dev THEN Fail("KeyError", "NonPageAborts")
-                          ELSE dest' = None /\ pc' = "done" /\ UNCHANGED <<pageno, err, fired>> /\ In
-                     ELSE dest' = dest.d /\ pc' = "ref" /\ UNCHANGED <<pageno, err, fired>> /\ In
-              ELSE dest' = dest /\ pc' = "ref" /\ UNCHANGED <<pageno, err, fired>> /\ In
-\* third test: a reference is resolved
-RRef ==  /\ pc = "ref"
-         /\ dest' = IF dest.k = "ref" THEN dest.v ELSE dest
-         /\ pc' = "look" /\ UNCHANGED <<pageno, err, fired>> /\ In
-\* pageno = pages[dest[0].objid]
-PLookup == /\ pc = "look"
-           /\ IF dest.k = "arr" /\ dest.pg \in 1..P
-                THEN pageno' = dest.pg /\ pc' = "done" /\ UNCHANGED <<dest, err, fired>> /\ In
-              ELSE IF dest.k = "arr"
-                THEN IF "NonPageAborts" \in Dev
-                       THEN Fail(IF dest.pg = INTEGER THEN "AttributeError" ELSE "KeyError", "NonPageAborts")
-                       ELSE pc' = "done" /\ UNCHANGED <<dest, pageno, err, fired>> /\ In
-              ELSE \* a name, string or dictionary that only came to light behind a reference
-                   Fail(IF dest.k = "str" THEN "AttributeError" ELSE IF dest.k = "lit" THEN "TypeError" ELSE "KeyError",
-                        "RefNotReinterpreted")
-\* `elif a:` - isinstance(action, dict), subtype GoTo, action.get("D")
-AAction == /\ pc = "action"
-           /\ IF ia = None THEN pc' = "done" /\ UNCHANGED <<dest, fired>>
-              ELSE IF ia.k = "ref" /\ "IndirectActionIgnored" \in Dev
-                THEN pc' = "done" /\ fired' = fired \cup {"IndirectActionIgnored"} /\ UNCHANGED dest
-              ELSE LET act == Resolve1(ia) IN
-                   IF act.s = "GoTo" /\ act.d # None
-                     THEN dest' = act.d /\ pc' = "name" /\ UNCHANGED fired
-                     ELSE pc' = "done" /\ UNCHANGED <<dest, fired>>
-           /\ UNCHANGED <<pageno, err>> /\ In
-Finished == pc = "done" /\ UNCHANGED vars
-Next == DTest \/ RName \/ RNameSkip \/ RDict \/ RRef \/ PLookup \/ AAction \/ Finished
+DTest   == st.pc = "test"   /\ st' = StepTest(st) /\ In
+RName   == st.pc = "name"   /\ st' = StepName(st, nv, Dev) /\ In
+RDict   == st.pc = "dict"   /\ st' = StepDict(st, Dev) /\ In
+RRef    == st.pc = "ref"    /\ st' = StepRef(st) /\ In
+PLookup == st.pc = "look"   /\ st' = StepLook(st, P, Dev) /\ In
+AAction == st.pc = "action" /\ st' = StepAction(st, ia, Dev) /\ In
+Finished == st.pc = "done" /\ UNCHANGED vars
+Next == DTest \/ RName \/ RDict \/ RRef \/ PLookup \/ AAction \/ Finished
 Spec == Init /\ [][Next]_vars
 
-\* ---- reference
-RECURSIVE PageOf(_, _)
-PageOf(v, names) ==
-  CASE v.k = "ref" -> PageOf(v.v, names)
-    [] v.k \in {"str", "lit"} -> IF names = Absent THEN 0 ELSE PageOf(names, Absent)
-    [] v.k = "dict" -> IF v.d = NoDv THEN 0 ELSE PageOf(v.d, names)
-    [] v.k = "arr" -> IF v.pg \in 1..P THEN v.pg ELSE 0
-    [] OTHER -> 0
-RefPage == IF idest # None THEN PageOf(idest, nv)
-           ELSE IF ia = None THEN 0
-           ELSE LET act == Resolve1(ia) IN IF act.s = "GoTo" /\ act.d # None THEN PageOf(act.d, nv) ELSE 0
-
-Resolution == (pc = "done" /\ fired = {}) => (err = "none" /\ pageno = RefPage)
+RefPage == RefPageOf(idest, ia, nv, P)
+Resolution == (st.pc = "done" /\ st.fired = {}) => (st.err = "none" /\ st.pageno = RefPage)
 \* whatever deviation is in force: a page number that is reported is the right one
-NeverWrongPage == (pc = "done" /\ pageno # 0) => pageno = RefPage
-Progress == [][pc' # pc \/ dest' # dest]_vars
+NeverWrongPage == (st.pc = "done" /\ st.pageno # 0) => st.pageno = RefPage
+\* the step-by-step machine and the steps folded into one function agree
+RunShape == st.pc = "done" => st = Run(Start(idest), ia, nv, P, Dev)
+Progress == [][st'.pc # st.pc \/ st'.dest # st.dest]_vars
 
-EmitTerminal == pc = "done" =>
-  PrintT("@@" \o ToJson([dest |-> idest, a |-> ia, nv |-> nv, pageno |-> pageno, err |-> err, fired |-> fired, ref |-> RefPage]))
+EmitTerminal == st.pc = "done" =>
+  PrintT("@@" \o ToJson([dest |-> idest, a |-> ia, nv |-> nv, pageno |-> st.pageno, err |-> st.err, fired |-> st.fired, ref |-> RefPage]))
 =============================================================================
